@@ -10,6 +10,9 @@ Stages (each executed; the first one that disagrees with the source is blamed):
   S4 canon      + canonicalize
   S5 labels     + lower-riscv-scf-to-labels          (`-t riscv-asm` text → parsed)
   S6 asm        + riscv-prologue-epilogue-insertion  (`-t riscv-asm` text → parsed; the emitted function)
+Second path from S2 (the other documented way out of riscv_scf): C3 convert-riscv-scf-to-riscv-cf,
+C4 canonicalize (ElideConstantBranches folds the constant loop guards), C5 riscv-lower-parallel-mov +
+prologue/epilogue → assembler text.  C3/C4 run on the IR executor (basic blocks, riscv_cf terminators).
 S1–S4 are run by a structured executor over the IR (riscv_scf.for executed exactly the way
 lower-riscv-scf-to-labels spells it: mv iv,lb; bge; body; add iv,step; blt), S5/S6 by the program-counter
 machine on the parsed assembler text.
@@ -30,8 +33,15 @@ STAGES = [
     ("S5-labels", ["lower-riscv-scf-to-labels"]),
     ("S6-asm", ["riscv-prologue-epilogue-insertion"]),
 ]
-ASM_STAGES = ("S5-labels", "S6-asm")
+ASM_STAGES = ("S5-labels", "S6-asm", "C5-cfasm")
 FINAL = "S6-asm"
+# second way out of the structured loops (taken from the allocated module S2): basic blocks + riscv_cf
+CF_STAGES = [
+    ("C3-cf", ["convert-riscv-scf-to-riscv-cf"]),
+    ("C4-cfcanon", ["canonicalize"]),
+    ("C5-cfasm", ["riscv-lower-parallel-mov", "riscv-prologue-epilogue-insertion"]),
+]
+FINALS = ("S6-asm", "C5-cfasm")
 STAGE_SITE = {
     "S1-lowered": "xdsl.backend.riscv.lowering",
     "S2-allocated": "xdsl.transforms.riscv_allocate_registers.RISCVAllocateRegistersPass",
@@ -39,6 +49,9 @@ STAGE_SITE = {
     "S4-canon": "xdsl.transforms.canonicalize.CanonicalizePass[riscv]",
     "S5-labels": "xdsl.backend.riscv.riscv_scf_to_asm.LowerRiscvScfForToLabelsPass",
     "S6-asm": "xdsl.backend.riscv.prologue_epilogue_insertion.PrologueEpilogueInsertion",
+    "C3-cf": "xdsl.backend.riscv.lowering.convert_riscv_scf_to_riscv_cf.ConvertRiscvScfToRiscvCfPass",
+    "C4-cfcanon": "xdsl.transforms.canonicalize.CanonicalizePass[riscv_cf]",
+    "C5-cfasm": "xdsl.backend.riscv.prologue_epilogue_insertion.PrologueEpilogueInsertion[riscv_cf]",
 }
 
 INT_OPS = ["addi", "subi", "muli", "andi", "ori", "xori", "shli", "shrsi", "shrui", "divsi", "remsi", "divui", "remui"]
@@ -129,11 +142,71 @@ def directed_programs() -> list[dict[str, Any]]:
         out.append(prog(2, ["i32"], f"  %lb = arith.constant {lb} : index\n  %ub = arith.constant {ub} : index\n  %st = arith.constant {st} : index\n"
                         "  %r = scf.for %i = %lb to %ub step %st iter_args(%acc = %a0) -> (i32) {\n"
                         "    %n = arith.addi %acc, %a1 : i32\n    %m = arith.muli %n, %n : i32\n    scf.yield %m : i32\n  }", "%r"))
+    # nested loops: the inner result is yielded by the outer loop, the outer carried value is read inside
+    for fx in NESTED_FIXED:
+        out.append(nested_program(None, fx))
+    # constant-bound loops whose guard compares equal / adjacent constants (folded on the cf path)
+    for lb, ub, st in ((3, 3, 1), (0, 0, 1), (-1, -1, 2), (7, 8, 1), (8, 7, 1), (-1, 0, 1), (2147483646, 2147483647, 1)):
+        out.append(prog(2, ["i32"], f"  %lb = arith.constant {lb} : index\n  %ub = arith.constant {ub} : index\n  %st = arith.constant {st} : index\n"
+                        "  %r = scf.for %i = %lb to %ub step %st iter_args(%acc = %a0) -> (i32) {\n"
+                        "    %n = arith.addi %acc, %acc : i32\n    %m = arith.xori %n, %a1 : i32\n    scf.yield %m : i32\n  }", "%r"))
     # every integer op of the arith lowering table, on two arguments and with a constant operand
     for op in INT_OPS:
         out.append(prog(2, ["i32"], f"  %v = arith.{op} %a0, %a1 : i32", "%v"))
         out.append(prog(2, ["i32"], f"  %c = arith.constant 3 : i32\n  %v = arith.{op} %a0, %c : i32\n  %w = arith.{op} %c, %a1 : i32\n  %x = arith.xori %v, %w : i32", "%x"))
     return out
+
+
+def nested_program(rng: Any, fixed: tuple[Any, ...] | None = None) -> dict[str, Any]:
+    """outer scf.for whose carried value(s) are read inside an inner scf.for and which yields the
+    inner result directly; every yielded value is produced after the last use of the block argument
+    it replaces (the shape the allocator handles); constant bounds, ≥ 2 iterations unless asked"""
+    if fixed is not None:
+        (olb, oub, ost), (ilb, iub, ist), op1, op2, two, extra = fixed
+    else:
+        olb, ost = rng.choice([0, 1, -1]), rng.choice([1, 1, 2])
+        oub = olb + ost * rng.choice([2, 2, 3, 0, 1])
+        ilb, ist = rng.choice([0, 2, -2]), rng.choice([1, 1, 3])
+        iub = ilb + ist * rng.choice([2, 3, 4, 0, 1])
+        op1, op2 = rng.choice(["addi", "subi", "xori", "muli", "addi"]), rng.choice(["addi", "xori", "ori", "subi"])
+        two, extra = rng.random() < 0.4, rng.random() < 0.5
+    nargs = 2
+    L = [f"  %olb = arith.constant {olb} : index", f"  %oub = arith.constant {oub} : index", f"  %ost = arith.constant {ost} : index",
+         f"  %ilb = arith.constant {ilb} : index", f"  %iub = arith.constant {iub} : index", f"  %ist = arith.constant {ist} : index"]
+    if not two:
+        L += ["  %r = scf.for %i = %olb to %oub step %ost iter_args(%acc = %a0) -> (i32) {",
+              "    %in = scf.for %j = %ilb to %iub step %ist iter_args(%a2 = %acc) -> (i32) {",
+              f"      %t = arith.{op1} %a2, %acc : i32"]
+        if extra:
+            L += [f"      %u = arith.{op2} %t, %a1 : i32", "      scf.yield %u : i32"]
+        else:
+            L += ["      scf.yield %t : i32"]
+        L += ["    }", "    scf.yield %in : i32", "  }"]
+        ret, rets = "%r", ["i32"]
+    else:
+        L += ["  %r, %q = scf.for %i = %olb to %oub step %ost iter_args(%acc = %a0, %cnt = %a1) -> (i32, i32) {",
+              "    %in = scf.for %j = %ilb to %iub step %ist iter_args(%a2 = %acc) -> (i32) {",
+              f"      %t = arith.{op1} %a2, %acc : i32",
+              f"      %u = arith.{op2} %t, %cnt : i32",
+              "      scf.yield %u : i32", "    }",
+              "    %c1 = arith.constant 1 : i32",
+              "    %cn = arith.addi %cnt, %c1 : i32",
+              "    scf.yield %in, %cn : i32, i32", "  }"]
+        ret, rets = "%r, %q", ["i32", "i32"]
+    sig = ", ".join(f"%a{i}: i32" for i in range(nargs))
+    return {"text": f"builtin.module {{\nfunc.func @main({sig}) -> ({', '.join(rets)}) {{\n" + "\n".join(L)
+                    + f"\n  func.return {ret} : {', '.join(rets)}\n}}\n}}\n",
+            "arg_types": ["i32"] * nargs, "ret_types": rets}
+
+
+NESTED_FIXED = [
+    ((0, 2, 1), (0, 3, 1), "addi", "addi", False, False),
+    ((0, 3, 1), (0, 2, 1), "addi", "xori", False, True),
+    ((1, 5, 2), (-2, 4, 3), "subi", "addi", False, False),
+    ((0, 2, 1), (0, 2, 1), "addi", "addi", True, False),
+    ((0, 2, 1), (3, 3, 1), "addi", "addi", False, False),   # inner zero-trip
+    ((2, 2, 1), (0, 3, 1), "addi", "addi", False, False),   # outer zero-trip
+]
 
 
 BOUNDARY_PAIRS = [[-(1 << 31), (1 << 31) - 1], [(1 << 31) - 1, -(1 << 31)], [-1, 0], [0, -1], [5, 5], [-8, 1], [-8, 31], [7, 3],
@@ -240,14 +313,33 @@ class IRExec:
         self.nm = Namer()
         self.fuel = fuel
         self.funcs = {f.sym_name.data: f for f in module.walk() if isinstance(f, riscv_func.FuncOp)}
+        self.ret_vals: list[int] | None = None
+        self.trace: list[int] = []
 
     def ins_of(self, op: Any) -> tuple[str, list[Any]]:
         return ins_of(op, self.nm)
 
     def call(self, name: str, depth: int = 0) -> None:
+        """run a function: blocks are left through riscv_cf terminators (block arguments are assigned
+        simultaneously: a no-op once source and target share a register) or riscv_func.return"""
         if name not in self.funcs or depth > 20:
             raise IRUnsupported(f"call of {name}")
-        self.block(self.funcs[name].body.blocks.first, depth)
+        blk = self.funcs[name].body.blocks.first
+        while blk is not None:
+            res = self.block(blk, depth)
+            if isinstance(res, tuple) and res[0] == "goto":
+                _, target, vals = res
+                if len(vals) != len(target.args):
+                    raise IRUnsupported("branch arity")
+                for a, v in zip(target.args, vals):
+                    self.m.set(self.nm.reg(a), v)
+                self.trace.append(id(target))
+                blk = target
+                self.tick()
+            elif res is None:
+                blk = None
+            else:
+                raise IRUnsupported("yield outside of a loop")
 
     def tick(self) -> None:
         self.m.steps += 1
@@ -255,15 +347,24 @@ class IRExec:
             raise rv.Trap("fuel")
 
     def block(self, blk: Any, depth: int) -> Any:
-        from xdsl.dialects import riscv, riscv_func, riscv_scf
+        from xdsl.dialects import riscv, riscv_cf, riscv_func, riscv_scf
         from xdsl.dialects.builtin import IntegerAttr
         from xdsl.dialects.riscv.abstract_ops import GetAnyRegisterOperation
+        from xdsl.ir import Dialect
 
         g, s, reg = self.m.get, self.m.set, self.nm.reg
         for op in blk.ops:
             self.tick()
             if isinstance(op, riscv_func.ReturnOp):
+                if depth == 0:
+                    self.ret_vals = [g(reg(v)) for v in op.operands]
                 return None
+            if isinstance(op, riscv_cf.ConditionalBranchOperation):
+                taken = rv.branch_taken(Dialect.split_name(op.name)[1], g(reg(op.rs1)), g(reg(op.rs2)))
+                target, args = (op.then_block, op.then_arguments) if taken else (op.else_block, op.else_arguments)
+                return ("goto", target, [g(reg(x)) for x in args])
+            if isinstance(op, (riscv_cf.BranchOp, riscv_cf.JOp)):
+                return ("goto", op.successor, [g(reg(x)) for x in op.block_arguments])
             if isinstance(op, riscv_scf.YieldOp):
                 return op
             if isinstance(op, GetAnyRegisterOperation) or isinstance(op, (riscv.LabelOp, riscv.CommentOp)):
@@ -347,4 +448,179 @@ def want_from_sem(line: str, ret_types: list[str]) -> list[int] | None:
     for item, t in zip(body.split(","), ret_types):
         v = int(item.split(":")[1])
         out.append((v & 1) if t == "i1" else (v & rv.M32))
+    return out
+
+
+# ------------------------------------------------------------------------------------------------
+# attribution of allocator failures
+# ------------------------------------------------------------------------------------------------
+
+def unsafe_source_loops(src: Any) -> bool:
+    """On the *source* module (scf level, before any pass under test): does some scf.for yield a value
+    that is not produced after the last use of the block argument it replaces?  That is the listed
+    allocator limitation (riscv_scf.for ties yield operand and block argument without a copy):
+    the yielded value is the block argument of another position, a value defined outside the body,
+    yielded twice, or defined by an op of the body while the replaced block argument is still used by
+    a later op.  A value produced by an inner scf.for counts as defined after that whole loop (its
+    result is a fresh value once the loop is done), so block-argument uses inside it are fine."""
+    from xdsl.dialects import scf
+    from xdsl.ir import OpResult
+
+    for op in src.walk():
+        if not isinstance(op, scf.ForOp):
+            continue
+        body = op.body.block
+        ops = list(body.ops)
+        pos = {id(o): i for i, o in enumerate(ops)}
+        ys = list(ops[-1].operands)
+        for b, yv in zip(body.args[1:], ys):
+            if yv is b:
+                continue
+            if ys.count(yv) > 1:
+                return True
+            if not (isinstance(yv, OpResult) and id(yv.op) in pos):
+                return True
+            d = pos[id(yv.op)]
+            for u in b.uses:
+                o = u.operation
+                while o is not None and id(o) not in pos:
+                    o = o.parent_op()
+                if o is None or pos[id(o)] > d:
+                    return True
+    return False
+
+
+class _Tok:
+    n = 0
+
+    @classmethod
+    def new(cls) -> int:
+        cls.n += 1
+        return cls.n
+
+
+def interference(m: Any) -> list[dict[str, str]]:
+    """Independent check of an allocated riscv module (structured form: riscv_func + riscv_scf.for):
+    abstract execution that tracks which *value* (content token) every physical register holds and
+    reports every use of an SSA value whose register holds something else at that point - in
+    particular values overwritten inside a loop that are needed in a later iteration (loop bodies are
+    re-run against the state merged over the back edge until nothing changes).  Copies (mv /
+    parallel_mov) propagate the token, so a move into the same register is not a conflict."""
+    from xdsl.dialects import riscv, riscv_func, riscv_scf
+    from xdsl.dialects.riscv.abstract_ops import GetAnyRegisterOperation
+
+    out: list[dict[str, str]] = []
+    seen: set[tuple[int, int]] = set()
+    tok: dict[int, int] = {}
+
+    def regname(v: Any) -> str | None:
+        t = v.type
+        n = t.register_name.data if hasattr(t, "register_name") else ""
+        return n if n and n != "zero" else None
+
+    def name(v: Any) -> str:
+        return "%" + (v.name_hint or "?")
+
+    def use(state: dict[str, int], v: Any, op: Any, loop_regs: set[str]) -> None:
+        r = regname(v)
+        if r is None:
+            return
+        if id(v) not in tok:
+            tok[id(v)] = state.get(r, _Tok.new())  # first sight of a value defined outside (function argument)
+            state.setdefault(r, tok[id(v)])
+        if state.get(r) != tok[id(v)] and (id(v), id(op)) not in seen:
+            seen.add((id(v), id(op)))
+            out.append({"value": name(v), "register": r, "at": op.name, "loop_carried_register": str(r in loop_regs)})
+
+    def define(state: dict[str, int], v: Any, t: int | None = None) -> None:
+        # one token per SSA value for the whole analysis (a copy carries the token of its source)
+        tok[id(v)] = t if t is not None else (tok.get(id(v)) or _Tok.new())
+        r = regname(v)
+        if r is not None:
+            state[r] = tok[id(v)]
+
+    def merge(a: dict[str, int], b: dict[str, int]) -> tuple[dict[str, int], bool]:
+        res, changed = {}, False
+        for r in set(a) | set(b):
+            if a.get(r) == b.get(r):
+                res[r] = a[r]
+            else:
+                res[r] = a.get(r, 0) if a.get(r, 0) < 0 else -_Tok.new()  # negative = unknown, stays unknown
+                changed = changed or a.get(r) != res[r]
+        return res, changed
+
+    def block(ops: Any, state: dict[str, int], loop_regs: set[str]) -> Any:
+        for op in ops:
+            if isinstance(op, (riscv.LabelOp, riscv.CommentOp)):
+                continue
+            if isinstance(op, GetAnyRegisterOperation):
+                r = regname(op.results[0])
+                if r is not None:
+                    tok[id(op.results[0])] = state.setdefault(r, _Tok.new())
+                continue
+            if isinstance(op, riscv_scf.YieldOp):
+                return op
+            if isinstance(op, riscv_func.ReturnOp):
+                for v in op.operands:
+                    use(state, v, op, loop_regs)
+                return None
+            if isinstance(op, riscv.MVOp):
+                use(state, op.rs, op, loop_regs)
+                define(state, op.rd, tok.get(id(op.rs)))
+                continue
+            if isinstance(op, riscv.ParallelMovOp):
+                for v in op.inputs:
+                    use(state, v, op, loop_regs)
+                ts = [tok.get(id(v)) for v in op.inputs]
+                for o, t in zip(op.outputs, ts):
+                    define(state, o, t)
+                continue
+            if isinstance(op, riscv_scf.ForOp):
+                body = op.body.block
+                for v in (op.lb, op.ub, *([op.step] if not hasattr(op.step, "value") else []), *op.iter_args):
+                    use(state, v, op, loop_regs)
+                inner_regs = loop_regs | {r for a in body.args[1:] if (r := regname(a)) is not None}
+                entry = dict(state)
+                for _ in range(8):
+                    st = dict(entry)
+                    for a in body.args:
+                        define(st, a, tok.get(id(a)))
+                    y = block(body.ops, st, inner_regs)
+                    if y is not None:
+                        for v in y.operands:
+                            use(st, v, y, inner_regs)
+                        use(st, op.ub, y, inner_regs)
+                        if not hasattr(op.step, "value"):
+                            use(st, op.step, y, inner_regs)
+                        use(st, body.args[0], y, inner_regs)
+                    for a in body.args:  # the back edge / exit redefines the carried registers
+                        r = regname(a)
+                        if r is not None:
+                            st[r] = entry.get(r, st[r])
+                    entry, changed = merge(entry, st)
+                    if not changed:
+                        break
+                state.clear()
+                state.update(entry)
+                for a in body.args:
+                    r = regname(a)
+                    if r is not None:
+                        state[r] = -_Tok.new()
+                for res in op.results:
+                    define(state, res)
+                continue
+            for v in op.operands:
+                use(state, v, op, loop_regs)
+            for res in op.results:
+                define(state, res)
+        return None
+
+    for f in m.walk():
+        if isinstance(f, riscv_func.FuncOp) and f.body.blocks:
+            if len(f.body.blocks) != 1:
+                continue
+            st: dict[str, int] = {}
+            for a in f.body.blocks.first.args:
+                define(st, a)
+            block(f.body.blocks.first.ops, st, set())
     return out
